@@ -1,6 +1,7 @@
 package trzsz
 
 import (
+	"bytes"
 	"fmt"
 	"os"
 	"path/filepath"
@@ -72,6 +73,19 @@ func vScenarioC14(rc *runCtx) {
 			act[k] = v
 		}
 	}
+	// the relays' own tunnel hop may come up late (after the client has given the tunnel up), over slow links
+	if cfg.tunnel && tp.Bool("c14.relayslow", 250) {
+		o.relayConnectDelay = time.Duration(600+tp.Draw("c14.relaydelay", 1200)) * time.Millisecond
+		if tp.Bool("c14.relayslowlink", 600) {
+			o.profile.latPm, o.profile.latMax, o.profile.coalPm = 1000, time.Duration(100+tp.Draw("c14.slowlat", 400))*time.Millisecond, 600
+		}
+		o.tunnelFast = false
+		cfg.fork = false
+		o.flags = cfg.flags()
+		rc.fault("relay-tunnel-hop-late")
+	}
+	// a key typed between the trigger and the client's ACT (a laggy hop, an impatient user) sits in front of the ACT
+	typeAhead := !cfg.tunnel && tp.Bool("c14.typeahead", 150)
 	ending := []string{"exit", "user-stop", "server-disk-error", "sigint"}[tp.Pick("c14.ending", 4, 2, 2, 2)]
 	if ending == "refused" {
 		o.actEdit = func(act map[string]any) {
@@ -90,6 +104,21 @@ func vScenarioC14(rc *runCtx) {
 	x := newXferWorld(rc, o)
 	armed := vArmAfterCfg(x)
 	fired := false
+	if typeAhead {
+		typed := false
+		prev := x.downLast().OnWrite
+		x.downLast().OnWrite = func(l *verifsim.Link, d []byte) {
+			if prev != nil {
+				prev(l, d)
+			}
+			if !typed && bytes.Contains(d, []byte("::TRZSZ:TRANSFER:")) {
+				typed = true
+				rc.fault("key-typed-before-ACT")
+				key := []byte([]string{"\r", "x", "ls", "\x1b[I"}[tp.Draw("c14.typeaheadkey", 4)])
+				w.Go("user.typeahead", x.client, func() { x.kbd.Write(key) })
+			}
+		}
+	}
 	var endHook *bool
 	switch ending {
 	case "user-stop":
